@@ -259,6 +259,7 @@ impl Handler {
     ) -> Result<HandlerReturn, std::io::Error> {
         #[cfg(feature = "verif-hooks")]
         if let Some(scripted) = crate::verif::take_scripted_handler() {
+            crate::verif::record_scripted_handler_config(&config);
             return Ok(scripted);
         }
         let (exit_sender, exit) = oneshot::channel();
